@@ -76,6 +76,7 @@ type Engine struct {
 	memo     map[evalKey]*Term
 	inprog   map[evalKey]bool
 	branchCtx map[branchKey]*Ctx
+	errCtor   map[*ssa.Function]bool // repository functions that always return a non-nil error
 	foldPH   map[evalKey]*Term // accumulator placeholders while a loop-carried value is being unrolled
 	foldHits int
 	getters  map[*ssa.Function]string // nil-safe getter -> field name ("" = not a getter)
